@@ -117,12 +117,15 @@ pub fn share_cfg() -> Cfg {
 
 pub fn run(ctx: &mut Ctx) {
     let tier = ctx.tier;
-    let scale = if ctx.slow_tool { 0 } else { tier.pick(1u64, 30u64) };
+    let scale = if ctx.slow_tool { 0 } else { tier.pick(8u64, 800u64) };
 
     let n = if ctx.slow_tool { 30 } else { 12_000 * scale };
     for idx in 0..n {
         if !ctx.take("shared", idx) {
             continue;
+        }
+        if ctx.stop("shared") {
+            break;
         }
         let mut r = ctx.rng("shared", idx);
         let mut cfg = share_cfg();
@@ -139,12 +142,15 @@ pub fn run(ctx: &mut Ctx) {
 
     // size sweep: first occurrence at every offset of the window around 16384
     if !ctx.slow_tool {
-        let reps = tier.pick(2u64, 12u64);
+        let reps = tier.pick(4u64, 60u64);
         for rep in 0..reps {
             for off in 16360..=16400u64 {
                 let idx = rep * 100_000 + off;
                 if !ctx.take("window", idx) {
                     continue;
+                }
+                if ctx.stop("window") {
+                    break;
                 }
                 let mut r = ctx.rng("window", idx);
                 let p = window_packet(&mut r, off as usize);
@@ -154,10 +160,13 @@ pub fn run(ctx: &mut Ctx) {
             }
         }
         // large messages with sharing throughout
-        let nbig = tier.pick(24u64, 400u64);
+        let nbig = tier.pick(64u64, 4000u64);
         for idx in 0..nbig {
             if !ctx.take("big", idx) {
                 continue;
+            }
+            if ctx.stop("big") {
+                break;
             }
             let mut r = ctx.rng("big", idx);
             let target = r.usize(14_000, 64_000);
